@@ -3,7 +3,13 @@ global size_of usize == 8;
 
 // the part of MachineState that increment_call_count touches; everything else is outside this unit
 pub struct Ball { pub stub: Vec<u64> }
-pub struct MachineState { pub cwil: CWIL, pub ball: Ball, pub block: usize }
+pub struct MachineState { pub cwil: CWIL, pub ball: Ball, pub block: usize, pub b: usize }
+pub struct Machine { pub machine_st: MachineState }
+impl Machine {
+    pub uninterp spec fn block_reg(&self) -> usize;
+    // `unsafe { self.deref_register(1).to_fixnum_or_cut_point_unchecked() }.get_num() as usize`
+    #[verifier::external_body] pub fn block_register(&self) -> (r: usize) ensures r == self.block_reg() { unimplemented!() }
+}
 impl MachineState {
     // TRUSTED frame: unwinding the stack does not touch the inference counter or the saved block
     #[verifier::external_body]
